@@ -6,6 +6,7 @@ CONSTANTS
   MaxRules = 0
   ElemToks = {}
   GenLen = 0
+  DefaultHosts = {"none"}
   Hosts = {}
   PathToks = {}
   PathLen = 0
